@@ -1263,6 +1263,7 @@ func (m *Memberlist) suspectNode(s *suspect) {
 			d = &dead{Incarnation: state.Incarnation, Node: state.Name, From: m.config.Name}
 		}
 		m.nodeLock.Unlock()
+		verifYieldKey("susptimeout2", m, s.Node)
 
 		if timeout {
 			if k > 0 && numConfirmations < k {
